@@ -707,7 +707,7 @@ def make_programs(ctx, n_plain, n_early):
 
 def run(ctx):
     quick = ctx.tier == "quick"
-    progs = make_programs(ctx, 14 if quick else 110, 4 if quick else 30)
+    progs = make_programs(ctx, 11 if quick else 110, 3 if quick else 30)
     nchunk = 2 if quick else 8
     chunks = [progs[i::nchunk] for i in range(nchunk)]
     import concurrent.futures as cf
